@@ -22,7 +22,7 @@ import re
 import vlib
 
 LEVEL = "model_checking"
-RUNS = {"quick": (72, 200), "thorough": (2000, 8000)}
+RUNS = {"quick": (96, 320), "thorough": (2400, 9600)}
 
 
 def drive(ctx, binary, ntrace, ndiff, tag, extra_env=None):
